@@ -123,6 +123,7 @@ type Sched struct {
 	res      *Result
 	opts     []Option
 	ens      []*thread
+	noChoice bool
 }
 
 // S is the active execution; nil = pass-through mode.
@@ -332,7 +333,7 @@ func (s *Sched) dispatch(from *thread) {
 		}
 		s.opts = opts
 		k := 0
-		if len(opts) > 1 {
+		if len(opts) > 1 && !s.noChoice {
 			s.res.ChoicePoints++
 			k = s.cfg.Chooser.Choose(opts)
 			if k < 0 || k >= len(opts) {
@@ -548,6 +549,14 @@ func Quiesce(d time.Duration) {
 	t := s.cur
 	t.quie = true
 	s.point("quiesce", func() bool { return false })
+}
+
+// NoChoice(true) makes every following scheduling decision the default one without consulting the chooser (used for
+// sequential set-up phases inside an execution that are not to be explored); NoChoice(false) ends that.
+func NoChoice(on bool) {
+	if s := S; s != nil {
+		s.noChoice = on
+	}
 }
 
 // Choose is a harness-level choice among n alternatives (0 is the default; others cost one 'h' deviation).
@@ -852,7 +861,7 @@ func doSelect(hasDefault, prio bool, cases []Case) (int, Val) {
 		return -1, Val{}
 	}
 	k := 0
-	if len(rd) > 1 && !prio {
+	if len(rd) > 1 && !prio && !s.noChoice {
 		opts := make([]Option, len(rd))
 		for i := range rd {
 			c := 1
@@ -1023,6 +1032,32 @@ func (m *RWMutex) RUnlock() {
 		panic("sync: RUnlock of unlocked RWMutex")
 	}
 	m.r--
+}
+
+func (m *RWMutex) TryLock() bool {
+	s := S
+	if s == nil {
+		return m.m.TryLock()
+	}
+	s.point("rw.trylock", always)
+	if m.w || m.r > 0 || m.wannnce > 0 {
+		return false
+	}
+	m.w = true
+	return true
+}
+
+func (m *RWMutex) TryRLock() bool {
+	s := S
+	if s == nil {
+		return m.m.TryRLock()
+	}
+	s.point("rw.tryrlock", always)
+	if m.w || m.wannnce > 0 {
+		return false
+	}
+	m.r++
+	return true
 }
 
 func (m *RWMutex) RLocker() sync.Locker { return (*rlocker)(m) }
